@@ -169,16 +169,18 @@ def filter_part(ctx, n, component="orphan"):
 def run(ctx):
     filter_part(ctx, ctx.scale(1500, 30000))
     comp_executor.run_prop(ctx, "C10", n_quick=150, n_thorough=4000)
+    # the narrow window: a queued branch started by a freed worker while the batch's completion record is in flight
+    for i in range(ctx.scale(300, 6000)):
+        comp_executor.one(ctx, "C10", comp_executor.gen_late_begin(ctx.rng), ctx.rng.randrange(1 << 30), component="executor.late_begin")
 
 
 def search(ctx):
     saved, ctx.driver = ctx.driver, None
     try:
         filter_part(ctx, 4000, component="orphan.search")
-        if not ctx.violations:
-            comp_executor.run_prop(ctx, "C10", n_quick=300, n_thorough=300)
     finally:
         ctx.driver = saved
+    comp_executor.search(ctx, "C10")
 
 
 def replay(ctx, rec):
